@@ -1,8 +1,160 @@
-import Lean.Data.Json
-/- stub: the C15 driver is not built yet -/
-namespace Glom.C15.Driver
-open Lean
+import Glom.Py.Json
+import Glom.Spec.C15
+import Glom.Model.C15Env
+/-
+  C15 driver.
 
-def run (_j : Json) : Except String Json := .error "property C15: driver not implemented yet"
+  case: {"heap":[Obj…], "targets":[Val…],
+         "prog":{"kind":"fold"|"sum"|"count"|"flatten"|"merge"|"flatten_fn"|"merge_fn",
+                 "sub":[Val…], "init":Init|null, "op":Op|null, "levels":int|null},
+         "impl":{"results":[R…], "after":[Obj…]}}
+  Init: "int"|"str"|"list"|"tuple"|"dict"|"OrderedDict"|"Acc"|"lazy"|{"shared":Val};  null = argument
+        omitted (the default extracted from the source is used)
+  Op:   "iadd"|"add"|"update"|"first_wins";  null = omitted
+  R:    {"err":[cls,isGlomError]} | {"imm":Val} | {"input":addr} | {"prev":i} | {"fresh":Obj}
+-/
+namespace Glom.C15.Driver
+open Lean Glom Glom.C15
+
+def initOfName (s : String) : Option InitArg :=
+  match s with
+  | "int" => some (.init .int) | "str" => some (.init .str) | "list" => some (.init .list)
+  | "tuple" => some (.init .tuple) | "dict" => some (.init .dict)
+  | "OrderedDict" => some (.init .odict) | "Acc" => some (.init .acc) | "lazy" => some .lazy
+  | _ => none
+
+def initArgOfJson (cls : String) (j : Json) : Except String InitArg :=
+  match j with
+  | .null =>
+    match (defaultSrc cls "init").bind initOfName with
+    | some i => .ok i
+    | none => .error s!"no usable default for {cls}.init in the extracted facts"
+  | .str s => match initOfName s with
+    | some i => .ok i
+    | none => .error s!"bad init {s}"
+  | _ => do
+    let v ← valOfJson (← j.getObjVal? "shared")
+    return .init (.shared v)
+
+def plainInit (cls : String) (j : Json) : Except String Init := do
+  match ← initArgOfJson cls j with
+  | .init i => return i
+  | .lazy => throw "init='lazy' is only meaningful for Flatten"
+
+def foldOpOfJson (j : Json) : Except String Op :=
+  match j with
+  | .null =>
+    match defaultSrc "Fold" "op" with
+    | some "operator.iadd" => .ok .iadd
+    | some "operator.add" => .ok .add
+    | d => .error s!"unusable default for Fold.op in the extracted facts: {d}"
+  | .str "iadd" => .ok .iadd
+  | .str "add" => .ok .add
+  | _ => .error s!"bad fold op {j.compress}"
+
+def mergeOpOfJson (cls : String) (j : Json) : Except String MergeOpArg :=
+  match j with
+  | .null =>
+    match defaultSrc cls "op" with
+    | some "None" => .ok .none
+    | d => .error s!"unusable default for {cls}.op in the extracted facts: {d}"
+  | .str "iadd" => .ok .iadd
+  | .str "first_wins" => .ok .firstWins
+  | .str n => .ok (.name n)
+  | _ => .error s!"bad merge op {j.compress}"
+
+def progOfJson (j : Json) : Except String Prog := do
+  let kind ← j.getObjValAs? String "kind"
+  let sub ← (match j.getObjVal? "sub" with
+    | .ok s => listOfJson valOfJson s
+    | .error _ => pure [])
+  let ji := (j.getObjVal? "init").toOption.getD .null
+  let jo := (j.getObjVal? "op").toOption.getD .null
+  match kind with
+  | "fold" => return .fold sub (← plainInit "Fold" ji) (← foldOpOfJson jo)
+  | "sum" => return .sum sub (← plainInit "Sum" ji)
+  | "count" => return .count
+  | "flatten" => return .flatten sub (← initArgOfJson "Flatten" ji)
+  | "merge" => return .merge sub (← plainInit "Merge" ji) (← mergeOpOfJson "Merge" jo)
+  | "flatten_fn" =>
+    let lv ← (match j.getObjVal? "levels" with
+      | .ok .null | .error _ =>
+        (match (defaultSrc "flatten" "levels").bind String.toInt? with
+         | some l => pure l
+         | none => throw "no usable default for flatten(levels=)")
+      | .ok l => l.getInt?)
+    return .flattenFn sub (← initArgOfJson "flatten" ji) lv
+  | "merge_fn" => return .mergeFn sub (← plainInit "merge" ji) (← mergeOpOfJson "merge" jo)
+  | k => throw s!"bad prog kind {k}"
+
+def rOfJson (j : Json) : Except String R := do
+  if let .ok e := j.getObjVal? "err" then
+    match ← arrOf e with
+    | [c, g] => return .err (← strOfJson c) (← g.getBool?)
+    | _ => throw "bad err"
+  else if let .ok v := j.getObjVal? "imm" then return .imm (← valOfJson v)
+  else if let .ok a := j.getObjValAs? Nat "input" then return .input a
+  else if let .ok i := j.getObjValAs? Nat "prev" then return .prev i
+  else if let .ok o := j.getObjVal? "fresh" then return .fresh (← objOfJson o)
+  else throw s!"bad R {j.compress}"
+
+def rToJson : R → Json
+  | .err c g => Json.mkObj [("err", Json.arr #[Json.str c, Json.bool g])]
+  | .imm v => Json.mkObj [("imm", valToJson v)]
+  | .input a => Json.mkObj [("input", a)]
+  | .prev i => Json.mkObj [("prev", i)]
+  | .fresh o => Json.mkObj [("fresh", objToJson o)]
+
+def obsOfJson (j : Json) : Except String Obs := do
+  return ⟨← listOfJson rOfJson (← j.getObjVal? "results"), ← heapOfJson (← j.getObjVal? "after")⟩
+
+def obsToJson (o : Obs) : Json :=
+  Json.mkObj [("results", Json.arr (o.results.map rToJson).toArray), ("after", heapToJson o.after)]
+
+def rTag : R → String
+  | .err c _ => s!"err-{c}"
+  | .imm _ => "imm"
+  | .input _ => "input"
+  | .prev _ => "prev"
+  | .fresh (.list c _) => s!"new-{c}"
+  | .fresh (.tuple c _) => s!"new-{c}"
+  | .fresh (.dict c _) => s!"new-{c}"
+  | .fresh _ => "new-other"
+
+def progTag : Prog → String
+  | .fold _ _ .add => "Fold/add" | .fold .. => "Fold/iadd"
+  | .sum .. => "Sum" | .count => "Count"
+  | .flatten _ .lazy => "Flatten/lazy" | .flatten .. => "Flatten"
+  | .merge .. => "Merge"
+  | .flattenFn _ _ l => s!"flatten(levels={if l > 3 then 4 else l})"
+  | .mergeFn .. => "merge()"
+
+/-- dict keys the kernel's `pyKeyEq` does not cover (tuples compare by value in Python) -/
+def keysOk (h : Heap) : Bool :=
+  h.all (fun o => match o with
+    | .dict _ es => es.all (fun e => match e.1 with | .ref _ => false | _ => true)
+    | _ => true)
+
+def run (j : Json) : Except String Json := do
+  let heap ← heapOfJson (← j.getObjVal? "heap")
+  let targets ← listOfJson valOfJson (← j.getObjVal? "targets")
+  let prog ← progOfJson (← j.getObjVal? "prog")
+  let implObs ← obsOfJson (← j.getObjVal? "impl")
+  if !(wfCase heap targets && (progVals prog).all (Val.inb heap.length)) then
+    return Json.mkObj [("skip", true), ("why", "heap not closed / dangling target")]
+  if !(keysOk heap) then
+    return Json.mkObj [("skip", true), ("why", "container used as a dict key")]
+  let env := genEnv
+  let out := runProg env prog targets heap
+  let modelObs := observe env heap.length out
+  let agree := modelObs == implObs
+  let holds := checkC15 env heap prog targets implObs
+  let modelHolds := checkC15 env heap prog targets modelObs
+  let tag := match modelObs.results with | r :: _ => rTag r | [] => "no-eval"
+  return Json.mkObj [("agree", agree), ("holds", holds), ("model_holds", modelHolds),
+    ("wf", WF env && WFSrc genSrc), ("hyp_init_allocates", prog.initAllocates),
+    ("model", obsToJson modelObs),
+    ("expected", Json.arr ((targets.map (expectR env heap prog)).map rToJson).toArray),
+    ("branch", s!"{progTag prog}:{tag}")]
 
 end Glom.C15.Driver
